@@ -84,12 +84,18 @@ def check_probe(R, case, raw):
     return None
 
 
-def run_history(R, level, steps, ctx_engine, boots0):
+def run_history(R, level, steps, ctx_engine, boots0, report_ctx=None):
     env.CLOCK.freeze(1_700_000_000.0)
     ckw = {"engine_id": ctx_engine} if ctx_engine else {}
     w = World(level, DB, client_kwargs=ckw, agent_kwargs={"boots": boots0, "any_context": bool(ctx_engine)})
+    if report_ctx is not None:
+        # the agent's reports (discovery, notInTimeWindow) name another - or no - context
+        # engine in their scoped PDU; the DISCOVERED engine id is the authoritative one
+        # of the security parameters
+        w.agent.report_context_engine = bytes.fromhex(report_ctx)
+        R.mon["histories_with_reports_naming_another_context_engine"] += 1
     w.seam.budget = 40 * len(steps) + 10
-    case = {"level": level, "steps": [list(s) for s in steps], "ctx_engine": "hex:" + ctx_engine.hex(), "boots0": boots0}
+    case = {"report_ctx": report_ctx, "level": level, "steps": [list(s) for s in steps], "ctx_engine": "hex:" + ctx_engine.hex(), "boots0": boots0}
     shape = tuple((s[0], s[1] if s[0] != "op" else s[1]) for s in steps)
     R.case(("c12", level, shape, bool(ctx_engine)), True, sample=case if R.evaluations % 151 == 0 else None)
     reboots = 0
@@ -241,7 +247,8 @@ def run(R):
         level = levels[i % len(levels)]
         steps = gen_history(rng)
         ctx = bytes([0x80]) + bytes(rng.getrandbits(8) for _ in range(8)) if rng.random() < 0.25 else b""
-        run_history(R, level, steps, ctx, rng.choice((0, 1, 7, 65535)))
+        report_ctx = rng.choice(("", "8000000105aabbccdd", "80001f8804" + b"elsewhere".hex())) if rng.random() < 0.2 else None
+        run_history(R, level, steps, ctx, rng.choice((0, 1, 7, 65535)), report_ctx=report_ctx)
     if R.shard == 0:
         for level in levels:
             for kind in ("wrong-msgid", "no-bindings", "msgid=0", "msgid=1", "msgid=-1", "msgid=2147483647", "msgid=2147483646", "msgid=-2147483648",
@@ -250,6 +257,8 @@ def run(R):
                 run_bad_discovery(R, level, kind)
             # the named histories of the design
             run_history(R, level, [("op", "get"), ("advance", 151), ("op", "get")], b"", 1)
+            run_history(R, level, [("op", "get"), ("advance", 151), ("op", "set"), ("reboot", 0), ("op", "get")], b"", 1, report_ctx="")
+            run_history(R, level, [("op", "get"), ("advance", 151), ("op", "set"), ("reboot", 0), ("op", "get")], b"", 1, report_ctx="8000000105aabbccdd")
             run_history(R, level, [("op", "get"), ("reboot", 0), ("op", "set"), ("op", "get")], b"", 1)
             run_history(R, level, [("op", "get"), ("advance", 149), ("op", "get"), ("advance", 149), ("op", "get"), ("advance", 3 * 86400), ("op", "walk")], b"", 1)
             run_history(R, level, [("op", "set"), ("advance", 3600), ("reboot", 0), ("advance", 100), ("reboot", 0), ("op", "bulkget")], b"", 1)
@@ -269,4 +278,4 @@ def replay(R, v):
     if "bad_discovery" in c:
         run_bad_discovery(R, c["level"], c["bad_discovery"])
         return
-    run_history(R, c["level"], [tuple(s) for s in c["steps"]], bytes.fromhex(c["ctx_engine"][4:]), c["boots0"])
+    run_history(R, c["level"], [tuple(s) for s in c["steps"]], bytes.fromhex(c["ctx_engine"][4:]), c["boots0"], report_ctx=c.get("report_ctx"))
